@@ -40,7 +40,10 @@ def main():
     want = set(sys.argv[1:])
     vdir = "/root/ws/seedfinal%s/verif" % os.environ.get("SEEDFINAL_SLOT", "")
     os.makedirs(vdir, exist_ok=True)
-    sh("rsync -a --delete --exclude work --exclude replays --exclude evidence /verif/ %s/" % vdir)
+    # the COMMITTED framework (git HEAD), not the working tree: work in progress must not leak into an evaluation;
+    # the Lean build products are copied along so that nothing is rebuilt that has not changed
+    sh("rm -rf %s/checklib %s/harness %s/tools %s/known && mkdir -p %s && git -C /verif archive HEAD | tar -x -C %s" % ((vdir,) * 6))
+    sh("rsync -a /verif/lean/.lake %s/lean/" % vdir)
     rows = []
     for d in sorted(glob.glob("/verif/seeded/S*")):
         sid = os.path.basename(d)
